@@ -1023,8 +1023,29 @@ func (b *bitstream) readN(n uint64) ([]byte, error) {
 		return nil, nil
 	}
 
-	bs := make([]byte, n)
-	actual, err := io.ReadFull(b.in, bs)
+	var bs []byte
+	var actual int
+	var err error
+	if n <= 64*1024 {
+		bs = make([]byte, n)
+		actual, err = io.ReadFull(b.in, bs)
+	} else {
+		// The length comes from the input and can't be trusted: let the buffer grow
+		// with the data that is actually there instead of allocating n bytes up front.
+		limit := int64(math.MaxInt64)
+		if n < uint64(limit) {
+			limit = int64(n)
+		}
+
+		var buf bytes.Buffer
+		var copied int64
+		copied, err = io.Copy(&buf, io.LimitReader(b.in, limit))
+		if err == nil && uint64(copied) < n {
+			err = io.ErrUnexpectedEOF
+		}
+		bs = buf.Bytes()
+		actual = int(copied)
+	}
 	b.pos += uint64(actual)
 
 	if err == io.EOF || err == io.ErrUnexpectedEOF {
